@@ -40,11 +40,21 @@ var backendNames = [4]string{"z3-4.8.12", "z3-new-5.1.0", "cvc5-1.0", "cvc5-bv-a
 type Solver struct {
 	cmd     *exec.Cmd
 	in      io.WriteCloser
+	w       *bufio.Writer
 	out     *bufio.Reader
 	log     []string // commands of the current path (decls, defs, asserts)
 	stats   *SolverStats
 	timeout time.Duration
-	depth   int
+	depth   int // decision scopes currently on the solver stack
+	// incremental reuse of the common script prefix between consecutive paths
+	prevScript []Decision
+	logMarks   []int // log index of the push of each decision scope
+	skipping   bool
+	skipUntil  int
+	base       bool // base scope pushed
+	Reuse      bool
+	defined    map[string]int // symbol -> depth at which it was defined
+	definedAt  [][]string     // symbols defined at each depth
 	Trace   io.Writer
 	// PreferBVInt routes every query to cvc5 --solve-bv-as-int first.
 	PreferBVInt bool
@@ -75,6 +85,7 @@ func (s *Solver) start() error {
 		return err
 	}
 	s.cmd, s.in, s.out = cmd, in, bufio.NewReaderSize(out, 1<<16)
+	s.w = bufio.NewWriterSize(in, 1<<16)
 	s.send(fmt.Sprintf("(set-option :timeout %d)", s.timeout.Milliseconds()))
 	s.send("(set-option :pp.bv_literals true)")
 	return nil
@@ -82,6 +93,7 @@ func (s *Solver) start() error {
 
 func (s *Solver) Close() {
 	if s.cmd != nil {
+		s.w.Flush()
 		s.in.Close()
 		s.cmd.Process.Kill()
 		s.cmd.Wait()
@@ -93,21 +105,91 @@ func (s *Solver) send(line string) {
 	if s.Trace != nil {
 		fmt.Fprintln(s.Trace, line)
 	}
-	io.WriteString(s.in, line)
-	io.WriteString(s.in, "\n")
+	s.w.WriteString(line)
+	s.w.WriteByte('\n')
 }
 
-// BeginPath resets the solver state for a new path.
-func (s *Solver) BeginPath() {
-	if s.depth > 0 {
-		s.send("(pop 1)")
+// BeginPath prepares the solver for a path following script. When Reuse is set,
+// the assertions of the longest common prefix with the previous path are kept
+// (re-execution is deterministic, so the replayed prefix produces the same
+// commands, which are then skipped).
+func (s *Solver) BeginPath(script []Decision) {
+	if !s.Reuse || !s.base || s.prevScript == nil {
+		s.fullReset()
+		return
+	}
+	l := 0
+	for l < len(script) && l < len(s.prevScript) && script[l] == s.prevScript[l] {
+		l++
+	}
+	if l > s.depth {
+		l = s.depth
+	}
+	if l >= len(script) {
+		// the whole script is shared (should not happen): be safe
+		s.fullReset()
+		return
+	}
+	if n := s.depth - l; n > 0 {
+		s.send(fmt.Sprintf("(pop %d)", n))
+		s.log = s.log[:s.logMarks[l]]
+		s.logMarks = s.logMarks[:l]
+		for d := l + 1; d < len(s.definedAt); d++ {
+			for _, name := range s.definedAt[d] {
+				delete(s.defined, name)
+			}
+		}
+		if len(s.definedAt) > l+1 {
+			s.definedAt = s.definedAt[:l+1]
+		}
+		s.depth = l
+	}
+	s.skipping = true
+	s.skipUntil = l
+}
+
+func (s *Solver) fullReset() {
+	if s.base {
+		s.send(fmt.Sprintf("(pop %d)", s.depth+1))
 	}
 	s.send("(push 1)")
-	s.depth = 1
+	s.base = true
+	s.depth = 0
+	s.defined = map[string]int{}
+	s.definedAt = nil
 	s.log = s.log[:0]
+	s.logMarks = s.logMarks[:0]
+	s.skipping = false
+	s.prevScript = nil
+}
+
+// EndPath records the final script of the finished path.
+func (s *Solver) EndPath(script []Decision) {
+	s.prevScript = append(s.prevScript[:0], script...)
+	if s.skipping {
+		// the path ended inside the shared prefix: state no longer matches
+		s.prevScript = nil
+	}
+}
+
+// OnDecision is called when the decision with index idx is consumed or recorded.
+func (s *Solver) OnDecision(idx int) {
+	if s.skipping {
+		if idx < s.skipUntil {
+			return
+		}
+		s.skipping = false
+	}
+	s.logMarks = append(s.logMarks, len(s.log))
+	s.log = append(s.log, "(push 1)")
+	s.send("(push 1)")
+	s.depth++
 }
 
 func (s *Solver) record(line string) {
+	if s.skipping {
+		return
+	}
 	s.log = append(s.log, line)
 	s.send(line)
 }
@@ -140,13 +222,29 @@ func (s *Solver) define(t *Term) {
 		x := f.t
 		st = st[:len(st)-1]
 		x.emit = true
-		switch x.op {
-		case "const":
-		case "var":
-			s.record(fmt.Sprintf("(declare-const %s %s)", x.name, x.sort.SMT()))
-		default:
-			s.record(fmt.Sprintf("(define-fun %s () %s %s)", refName(x), x.sort.SMT(), x.render(refName)))
+		if x.op == "const" {
+			continue
 		}
+		if _, ok := s.defined[x.name]; ok {
+			continue // kept from the shared prefix of the previous path
+		}
+		var cmd string
+		if x.op == "var" {
+			cmd = fmt.Sprintf("(declare-const %s %s)", x.name, x.sort.SMT())
+		} else {
+			cmd = fmt.Sprintf("(define-fun %s () %s %s)", x.name, x.sort.SMT(), x.render(refName))
+		}
+		// definitions are sent even inside the skipped prefix (they are harmless)
+		s.log = append(s.log, cmd)
+		s.send(cmd)
+		if s.defined == nil {
+			s.defined = map[string]int{}
+		}
+		s.defined[x.name] = s.depth
+		for len(s.definedAt) <= s.depth {
+			s.definedAt = append(s.definedAt, nil)
+		}
+		s.definedAt[s.depth] = append(s.definedAt[s.depth], x.name)
 	}
 }
 
@@ -157,7 +255,7 @@ func refName(t *Term) string {
 	case "var":
 		return t.name
 	}
-	return "t!" + strconv.Itoa(t.id)
+	return t.name
 }
 
 // Assert adds t to the path condition.
@@ -167,6 +265,7 @@ func (s *Solver) Assert(t *Term) {
 }
 
 func (s *Solver) readLine() string {
+	s.w.Flush()
 	line, err := s.out.ReadString('\n')
 	if err != nil {
 		return "(error \"solver died: " + err.Error() + "\")"
@@ -175,6 +274,7 @@ func (s *Solver) readLine() string {
 }
 
 func (s *Solver) readSexp() string {
+	s.w.Flush()
 	var sb strings.Builder
 	depth := 0
 	started := false
@@ -204,6 +304,9 @@ func (s *Solver) readSexp() string {
 // Check decides satisfiability of pathcond ∧ extra (extra may be nil).
 // On sat with wantModel, the model for vars is returned.
 func (s *Solver) Check(extra *Term, vars []*Term, wantModel bool) (SatResult, map[string]uint64) {
+	if s.skipping {
+		panic(pathAbort{kind: abortInternal, msg: "solver query inside the reused prefix"})
+	}
 	start := time.Now()
 	defer func() { atomic.AddInt64(&s.stats.Nanos, int64(time.Since(start))) }()
 	atomic.AddInt64(&s.stats.Queries, 1)
@@ -271,6 +374,7 @@ func (s *Solver) restart() {
 	for _, l := range s.log {
 		s.send(l)
 	}
+	s.base = true
 }
 
 func (s *Solver) getModel(vars []*Term) map[string]uint64 {
